@@ -20,6 +20,7 @@ import (
 	"github.com/oklog/ulid/v2"
 	"github.com/prometheus/client_golang/prometheus"
 	"github.com/prometheus/prometheus/model/labels"
+	"github.com/prometheus/prometheus/storage"
 	"github.com/prometheus/prometheus/tsdb/chunks"
 	"github.com/prometheus/prometheus/tsdb/index"
 	"github.com/thanos-io/objstore"
@@ -61,6 +62,8 @@ type input struct {
 	Matchers   []mreq `json:"matchers,omitempty"`
 	SkipChunks bool   `json:"skip_chunks,omitempty"`
 	SmallBatch bool   `json:"small_batch,omitempty"` // store with series batch size 2
+	Lazy       bool   `json:"lazy,omitempty"`        // store with lazy expanded postings (series match ratio 1: every further posting group is lazy)
+	ReqLimit   int64  `json:"req_limit,omitempty"`   // SeriesRequest.Limit
 }
 
 func facts(repo string, w io.Writer) error {
@@ -142,6 +145,7 @@ func mkSeries(i, chunks int) *storepb.Series {
 // ---- real BucketStore over fixture blocks ---------------------------------------
 
 type fseries struct {
+	ref  storage.SeriesRef // as the Prometheus index reader numbers it
 	lset labels.Labels
 	chks []chunks.Meta
 }
@@ -167,7 +171,7 @@ func (r *recLimiter) Reserve(n uint64) error {
 
 type fixture struct {
 	blocks      []fblock
-	stores      [2]*store.BucketStore // default batch size, batch size 2
+	stores      [4]*store.BucketStore // eager: default batch size, batch size 2; lazy postings: default, 2
 	mtx         sync.Mutex
 	slim, clim  uint64
 	sres, cres  []uint64
@@ -238,7 +242,7 @@ func (f *fixture) build() error {
 			if err := ir.Series(ps.At(), &b, &chks); err != nil {
 				return err
 			}
-			fb.series = append(fb.series, fseries{lset: b.Labels().Copy(), chks: append([]chunks.Meta(nil), chks...)})
+			fb.series = append(fb.series, fseries{ref: ps.At(), lset: b.Labels().Copy(), chks: append([]chunks.Meta(nil), chks...)})
 		}
 		ir.Close()
 		m, err := metadata.ReadFromDir(bdir)
@@ -251,7 +255,7 @@ func (f *fixture) build() error {
 			return fmt.Errorf("upload: %w", err)
 		}
 	}
-	for i := 0; i < 2; i++ {
+	for i := 0; i < 4; i++ {
 		sdir := filepath.Join(dir, fmt.Sprintf("store%d", i))
 		if err := os.MkdirAll(sdir, 0o755); err != nil {
 			return err
@@ -262,8 +266,13 @@ func (f *fixture) build() error {
 			return err
 		}
 		opts := []store.BucketStoreOption{}
-		if i == 1 {
+		if i%2 == 1 {
 			opts = append(opts, store.WithSeriesBatchSize(2))
+		}
+		if i >= 2 {
+			// match ratio 1: fetching a further posting group never saves series bytes, so every
+			// posting group after the first one with add keys is expanded lazily
+			opts = append(opts, store.WithLazyExpandedPostings(true), store.WithSeriesMatchRatio(1.0))
 		}
 		st, err := store.NewBucketStore(ins, mf, sdir,
 			func(c prometheus.Counter) store.ChunksLimiter {
@@ -331,30 +340,53 @@ func runStore(in input) (common.Case, error) {
 	if err != nil {
 		return c, err
 	}
-	// ground truth from the Prometheus index reader: per selected block, per series matched by the
-	// matchers (in postings order), the number of chunks in the time range
+	st := fx.stores[0]
+	bsz := store.SeriesBatchSize
+	switch {
+	case in.Lazy && in.SmallBatch:
+		st, bsz = fx.stores[3], 2
+	case in.Lazy:
+		st = fx.stores[2]
+	case in.SmallBatch:
+		st, bsz = fx.stores[1], 2
+	}
+	// Per selected block: the postings the block client iterates and the matchers it applies lazily
+	// come from the store's own postings expansion (an oracle: the choice of lazy posting groups
+	// is not part of the property); labels and chunk metas of every series come from the
+	// Prometheus index reader.
+	var blockMs []*labels.Matcher
+	for _, m := range pm {
+		if m.Name != "ext" { // matchers on external labels are answered by the block set
+			blockMs = append(blockMs, m)
+		}
+	}
 	var blocksCoq []string
 	union := map[string]bool{}
 	var trueChunks uint64
+	lazyBlocks := 0
 	for _, b := range fx.blocks {
 		if !(b.mint <= in.Maxt && in.Mint < b.maxt) || in.Mint > in.Maxt {
 			continue
 		}
-		var ks []string
-		for _, se := range b.series {
-			ok := true
-			for _, m := range pm {
-				v := se.lset.Get(m.Name)
-				if m.Name == "ext" {
-					v = "1"
-				}
-				if !m.Matches(v) {
-					ok = false
-					break
-				}
+		refs, lazyMs, err := st.VerifC09ExpandedPostings(context.Background(), b.id, blockMs)
+		if err != nil {
+			return c, fmt.Errorf("expanded postings: %w", err)
+		}
+		byRef := map[storage.SeriesRef]*fseries{}
+		for i := range b.series {
+			byRef[b.series[i].ref*16] = &b.series[i]
+		}
+		var es []string
+		for _, ref := range refs {
+			se := byRef[ref]
+			if se == nil {
+				return c, fmt.Errorf("posting %d is not a series of block %s", ref, b.id)
 			}
-			if !ok {
-				continue
+			lm := true
+			for _, m := range lazyMs {
+				if !m.Matches(se.lset.Get(m.Name)) {
+					lm = false
+				}
 			}
 			var k uint64
 			for _, ch := range se.chks {
@@ -368,13 +400,16 @@ func runStore(in input) (common.Case, error) {
 			if in.SkipChunks && k > 0 {
 				k = 1 // only "has a chunk in range" matters
 			}
-			ks = append(ks, common.N(k))
-			if k > 0 {
+			es = append(es, common.Pair(common.Bool(lm), common.N(k)))
+			if lm && k > 0 {
 				union[se.lset.String()] = true
 				trueChunks += k
 			}
 		}
-		blocksCoq = append(blocksCoq, common.List(ks))
+		if len(lazyMs) > 0 {
+			lazyBlocks++
+		}
+		blocksCoq = append(blocksCoq, common.App("mkB", common.Bool(len(lazyMs) > 0), common.List(es)))
 	}
 	if in.SkipChunks {
 		trueChunks = 0
@@ -383,12 +418,8 @@ func runStore(in input) (common.Case, error) {
 	fx.slim, fx.clim = in.Limit, in.ChunkLimit
 	fx.sres, fx.cres = nil, nil
 	fx.mtx.Unlock()
-	st := fx.stores[0]
-	if in.SmallBatch {
-		st = fx.stores[1]
-	}
 	rec := &recorder{}
-	err = st.Series(&storepb.SeriesRequest{MinTime: in.Mint, MaxTime: in.Maxt, Matchers: sm, SkipChunks: in.SkipChunks,
+	err = st.Series(&storepb.SeriesRequest{MinTime: in.Mint, MaxTime: in.Maxt, Matchers: sm, SkipChunks: in.SkipChunks, Limit: in.ReqLimit,
 		MaxResolutionWindow: 0, PartialResponseStrategy: storepb.PartialResponseStrategy_ABORT}, rec)
 	var nser, nchk uint64
 	for _, r := range rec.got {
@@ -415,14 +446,20 @@ func runStore(in input) (common.Case, error) {
 	fx.mtx.Lock()
 	sres, cres := append([]uint64(nil), fx.sres...), append([]uint64(nil), fx.cres...)
 	fx.mtx.Unlock()
-	c.Coq = common.App("CStore", common.N(in.Limit), common.N(in.ChunkLimit), common.Bool(in.SkipChunks), common.List(blocksCoq),
+	c.Coq = common.App("CStore", common.N(in.Limit), common.N(in.ChunkLimit), common.Nat(bsz), common.Bool(in.SkipChunks), common.N(uint64(in.ReqLimit)), common.List(blocksCoq),
 		common.Bool(err == nil), common.Bool(exhausted), sortedCoq(sres), sortedCoq(cres),
 		common.N(nser), common.N(nchk), common.N(uint64(len(union))), common.N(trueChunks))
 	c.Obs = map[string]any{"status": code, "series": nser, "chunks": nchk, "series_reservations": sres, "chunk_reservations": cres,
 		"true_series": len(union), "true_chunks": trueChunks}
 	c.Class = "store"
+	if lazyBlocks > 0 {
+		c.Class = "store/lazy"
+	}
+	if in.ReqLimit > 0 {
+		c.Class += "/req-limit"
+	}
 	if in.SkipChunks {
-		c.Class = "store/skip-chunks"
+		c.Class += "/skip-chunks"
 	}
 	c.Nontrivial = len(union) >= 2 && (in.Limit > 0 || in.ChunkLimit > 0)
 	if err == nil {
@@ -430,7 +467,9 @@ func runStore(in input) (common.Case, error) {
 			c.GoPred, c.Sig = fmt.Sprintf("returned %d series with series limit %d", nser, in.Limit), "store-series-limit"
 		} else if in.ChunkLimit > 0 && nchk > in.ChunkLimit {
 			c.GoPred, c.Sig = fmt.Sprintf("returned %d chunks with chunk limit %d", nchk, in.ChunkLimit), "store-chunk-limit"
-		} else if nser != uint64(len(union)) || nchk != trueChunks {
+		} else if in.ReqLimit > 0 && nser > uint64(in.ReqLimit) {
+			c.GoPred, c.Sig = fmt.Sprintf("returned %d series with request limit %d", nser, in.ReqLimit), "store-request-limit"
+		} else if in.ReqLimit == 0 && (nser != uint64(len(union)) || nchk != trueChunks) {
 			c.GoPred, c.Sig = fmt.Sprintf("returned %d series / %d chunks, the blocks hold %d / %d for this request", nser, nchk, len(union), trueChunks), "store-truncated"
 		}
 	} else if !exhausted {
@@ -553,7 +592,7 @@ func gen(r *rand.Rand, tier string, n int) []any {
 	nStore := n / 12 // every store case runs two real Series requests
 	for i := 0; i < nStore; i++ {
 		const h = int64(3600000)
-		in := input{Kind: "store", SkipChunks: r.Intn(5) == 0, SmallBatch: r.Intn(2) == 0}
+		in := input{Kind: "store", SkipChunks: r.Intn(5) == 0, SmallBatch: r.Intn(2) == 0, Lazy: r.Intn(2) == 0}
 		in.Mint = int64(r.Intn(int(5*h))) - h/2
 		in.Maxt = in.Mint + int64(r.Intn(int(4*h)))
 		if r.Intn(4) == 0 {
@@ -568,7 +607,12 @@ func gen(r *rand.Rand, tier string, n int) []any {
 			{{"=", "a", "3"}, {"=~", "b", "1|4"}},
 			{{"=", "a", "9"}},
 			{{"=", "ext", "1"}, {"=", "b", "2"}},
-		}[r.Intn(8)]
+			{{"=", "a", "1"}, {"=~", "b", "1|2|3"}},
+			{{"=~", "a", "1|2|3"}, {"=", "b", "1"}},
+			{{"=~", "a", ".+"}, {"=~", "b", "2|3|4"}},
+			{{"=", "a", "2"}, {"!=", "b", "1"}},
+			{{"=~", "a", "2|3"}, {"=~", "b", "1|4"}},
+		}[r.Intn(13)]
 		// limits around the real reservation totals are found by a dry run with limits disabled
 		dry := in
 		dry.Limit, dry.ChunkLimit = 0, 0
@@ -597,6 +641,11 @@ func gen(r *rand.Rand, tier string, n int) []any {
 			return uint64(v)
 		}
 		in.Limit, in.ChunkLimit = pick(sTot), pick(cTot)
+		if r.Intn(5) == 0 { // the request's own Limit: limiter limits off or generous, so that the result does not
+			// depend on how many batches were asked for before the merged stream was cut
+			in.ReqLimit = int64(1 + r.Intn(4))
+			in.Limit, in.ChunkLimit = common.Pick(r, uint64(0), sTot+5), common.Pick(r, uint64(0), cTot+5)
+		}
 		out = append(out, in)
 	}
 	for i := 0; i < n-nStore; i++ {
